@@ -27,7 +27,7 @@ func init() {
 		Assumptions: []string{"sync.Cond.Wait returns with the lock held", "the generic cache fires the eviction callback exactly once per entry (C15)"},
 		Tech:        "static analysis: lock-state dataflow on cacheWrapper/sharedEncryption, loop-exit guarded-by-condition, who-may-call over the closure-binding call graph",
 		NeedU1:      true,
-		Rules:       []func(*Ctx){ruleC16GetAtomic, ruleC16TeardownWaits, ruleC16SingleTeardownPath, ruleC16SharedWrapper, ruleC15CallbackExactlyOnce, ruleC15RemovalNotifies, ruleC15ExpiryEvicts, ruleC15RemoveUnlinks, ruleC15RelinkIsAMove, ruleC15ElementRecorded, lostUpdateRule("C16", "github.com/godaddy/asherah/go/appencryption"), lockBalancedRule("C16", 5, lockDomSpec{pkgApp, "cacheWrapper", "mu"}, lockDomSpec{pkgApp, "sharedEncryption", "mu"})},
+		Rules:       []func(*Ctx){ruleC16GetAtomic, ruleC16TeardownWaits, ruleC16SingleTeardownPath, ruleC16SharedWrapper, ruleC09CloseChains, ruleC15CallbackExactlyOnce, ruleC15RemovalNotifies, ruleC15ExpiryEvicts, ruleC15RemoveUnlinks, ruleC15RelinkIsAMove, ruleC15ElementRecorded, condOnSameLockRule("C16", [4]string{pkgApp, "sharedEncryption", "mu", "cond"}), lostUpdateRule("C16", "github.com/godaddy/asherah/go/appencryption"), lockBalancedRule("C16", 5, lockDomSpec{pkgApp, "cacheWrapper", "mu"}, lockDomSpec{pkgApp, "sharedEncryption", "mu"})},
 	})
 }
 
@@ -258,14 +258,14 @@ func ruleC16TeardownWaits(c *Ctx) {
 			ok := false
 			allInstrs(cl, func(i ssa.Instruction) {
 				if df, isD := i.(*ssa.Defer); isD && instrDominates(i, dec) {
-					if g := staticCallee(df); g != nil && (funcFullName(g) == "(*sync.Cond).Broadcast" || funcFullName(g) == "(*sync.Cond).Signal") {
+					if g := staticCallee(df); g != nil && (funcFullName(g) == "(*sync.Cond).Broadcast") {
 						ok = true
 					}
 				}
 			})
 			if !ok {
 				ok, _ = mustPass(dec.Block(), indexOf(dec)+1, func(j ssa.Instruction) bool {
-					return staticIs(j, "(*sync.Cond).Broadcast") || staticIs(j, "(*sync.Cond).Signal")
+					return staticIs(j, "(*sync.Cond).Broadcast")
 				}, nil)
 			}
 			c.check(ok, shortName(cl)+"/wakeup", u.ipos(dec), "decrement followed by Broadcast", "a holder can release the session without waking a waiting Remove: the session is never torn down")
